@@ -13,6 +13,7 @@ once (`…_partial` in the sense of DESIGN.md).
 -/
 import CoapLite.Lemmas.BlockTransfer
 import CoapLite.Lemmas.Upload
+import CoapLite.Lemmas.BlockSession
 import CoapLite.Lemmas.Shape.Block
 import CoapLite.Lemmas.Shape.BlockValue
 import CoapLite.Lemmas.Shape.Request
@@ -90,6 +91,27 @@ theorem upload_whole_body_partial (M : Nat) (B : Bytes) (szx : Nat) (st0 : Block
     (coreRequest M f.2 (runCore M st0 ds).1).1.message.payload = B ∧
     (runCore M st0 (ds ++ [f])).1.cachedPayload = none :=
   upload_whole M B szx st0 ds f hf1 h0 hord hreq hf
+
+/-- … AT THE LEVEL OF THE HANDLER, with its cache and clock, inside arbitrary traffic: fresh handler,
+ANY monotone history `evs` (other transfers interleaved at will). The calls for key `κ` are
+request-side calls, at most `ttl` apart, delivering the blocks of body `B`: the non-final ones `ds`
+in order from block 0 (each any number of times in a row), then the final one `f` once. Every
+non-final delivery is answered by the handler (`ok true`, the application is not reached), and the
+request the final call hands on carries exactly `B`. -/
+theorem upload_in_any_history_partial (M ttl : Nat) (evs : List Ev) (κ : Key) (B : Bytes) (szx : Nat)
+    (ds : List (Nat × Request)) (f : Nat × Request)
+    (hm : Mono 0 evs) (hsp : Spaced ttl (evs.filter (fun e => e.key = κ)))
+    (hreqs : ∀ e ∈ evs.filter (fun e => e.key = κ), e.isResp = false)
+    (hκ : (evs.filter (fun e => e.key = κ)).map (·.req) = (ds ++ [f]).map (·.2))
+    (hf1 : f.1 + 1 = nBlocks B (2 ^ (szx + 4)))
+    (h0 : ∀ d ∈ (ds ++ [f]).head?, d.1 = 0)
+    (hord : InOrder 0 (ds ++ [f]))
+    (hreq : ∀ x ∈ ds, UploadReq M B szx x.1 x.2 ∧ x.1 + 1 < nBlocks B (2 ^ (szx + 4)))
+    (hf : UploadReq M B szx f.1 f.2) :
+    ∃ pre last,
+      ((runEvs (Handler.new M ttl) evs).filter (fun o => o.1 = κ)).map (·.2) = pre ++ [last] ∧
+      pre.length = ds.length ∧ (∀ o ∈ pre, o.2 = .ok true) ∧ last.1.message.payload = B :=
+  Block.upload_in_any_history M ttl evs κ B szx ds f hm hsp hreqs hκ hf1 h0 hord hreq hf
 
 /-- a request too large for the budget that carries no Block1 option is answered
 4.13 with a Block1 size hint instead of being processed -/
